@@ -56,6 +56,12 @@ def conc_scenarios(seed):
             scs.append({"id": f"conc-{ev}-{n}", "config": {"keep": True, "dump_each": True}, "models": [c02.MATRIX_WF],
                         "ops": [["deploy", 0], ["start", "mx", {"pid": "p1"}], ["runall"],
                                 ["conc", n, ev, "p1", {"nid": "a1", "k": 0}, c02.opts_for(ev)], ["runall"]]})
+    # concurrent identical cancels of a completed act while the next step already waits: one of them re-opens the step, once
+    lin = {"id": "ml", "steps": [{"id": "s1", "acts": [{"id": "a1", "uses": gen.IRQ, "key": "k1"}]}, {"id": "s2", "acts": [{"id": "a2", "uses": gen.IRQ, "key": "k2"}]}]}
+    for n in (2, 4, 8, 8):
+        scs.append({"id": f"conc-cancel-{n}", "config": {"keep": True, "dump_each": True}, "models": [lin],
+                    "ops": [["deploy", 0], ["start", "ml", {"pid": "p1"}], ["runall"], ["act", "next", "p1", {"nid": "a1", "k": 0}, {}], ["runall"],
+                            ["conc", n, "cancel", "p1", {"nid": "a1", "k": 0}, {}], ["runall"]]})
     return scs
 
 
@@ -192,7 +198,7 @@ def run(ctx):
         ctx.cov["evaluations"] += 1
         conc["runs"] += 1
         for _, o in obs_of(res, {"conc"}):
-            ev = sc["ops"][3][2]
+            ev = next(op for op in sc["ops"] if op[0] == "conc")[2]
             if o["ok"] > 1:
                 conc["more_than_one"] += 1
                 ctx.violation(f"C05|concurrent-accepted-twice", f"{o['ok']} of {o['n']} concurrent identical '{ev}' actions on one open act were accepted",
@@ -204,7 +210,8 @@ def run(ctx):
                 ctx.nontrivial(["conc", sc["id"]])
         # successors created exactly once
         # (a `back` legitimately re-creates its target step with the old predecessor, so it is not counted here)
-        news = [(o["nid"], o.get("prev")) for i, o in obs_of(res, {"new"}) if i >= 3 and sc["ops"][3][2] != "back"]
+        ci = next(j for j, op in enumerate(sc["ops"]) if op[0] == "conc")
+        news = [(o["nid"], o.get("prev")) for i, o in obs_of(res, {"new"}) if i >= ci and sc["ops"][ci][2] != "back"]
         dup = [x for x in set(news) if news.count(x) > 1]
         if dup and not any(v["sig"].startswith("C05|concurrent-accepted-twice") for v in ctx.violations):
             ctx.violation("C05|successor-created-twice", f"successor tasks created more than once: {dup}", {"scenario": sc})
